@@ -91,6 +91,28 @@ func checkC04(p *Prog, r *Result, tier string) {
 		r.Report("C04.R2", "DB.Close", "entry", Undecided, "Close not found", "", nil, false)
 	}
 
+	// R6: what is committed is the published schema
+	r.Rule("C04.R6", "every schema encoding that feeds the schema file encodes the schema that is (or is about to be) published in the table: a value obtained from the table, or, when no schema could be acquired, the new one", 3)
+	var j6 []exploreJob
+	for _, f := range apiRoots(p) {
+		if f.Parent() == nil && c.Of(f).Has(EJsonEncSchema) {
+			j6 = append(j6, exploreJob{f, Valuation{Cache: triNo, Async: triNo}})
+		}
+	}
+	exploreAll(p, c, j6, effs(EOkSchema), r, func(j exploreJob) Listener {
+		return &effListener{p: p, r: r, root: j.root, val: j.val, onEvent: func(l *effListener, x *Explorer, st *State, ev *Event) {
+			if ev.Kind != EvEffect || ev.Eff != EJsonEncSchema {
+				return
+			}
+			fn := FuncName(l.root)
+			if ev.Tags&TFromTbl != 0 || !st.must.Has(EOkSchema) {
+				l.ok("C04.R6", fn, "commit encodes the published schema", l.p.Pos(ev.Instr.Pos()))
+			} else {
+				l.bad("C04.R6", fn, "commit encodes the published schema", "a schema value that is not the one held in the schema table is written to the schema file although a schema was acquired: the file would not reflect the live index", l.p.Pos(ev.Instr.Pos()), x, st, ev.Instr)
+			}
+		}}
+	}, nil)
+
 	checkCodecSiblings(p, r, "C04.R3")
 	checkRehydration(p, c, r, "C04.R4")
 	checkLossyDetour(p, r, "C04.R5")
